@@ -139,6 +139,9 @@ def r07_3(ctx):
         cases.append((f"{L}31:30", cls, 30))
     cases.append(("P3", O.REG_CLASS["P"], 3))
     cases.append(("R10", O.REG_CLASS["R"], 10))
+    # explicit registers whose two digits are equal are single registers (pairs are spelled Rdd or Rn:m)
+    for nm in ("R11", "R22", "R00", "C11", "V11", "V22"):
+        cases.append((nm, O.REG_CLASS[nm[0]], int(nm[1:])))
     for name, cls, num in cases:
         outs = mk_register(idx, name, is_explicit=num is not None)
         obs = set()
@@ -388,3 +391,18 @@ def r07_9(ctx):
         Interp(idx).explore(once)
         acc = box["o"].fields["access"]
         ctx.check(f"add_write_property[{name},{access}]", isinstance(acc, EnumV) and acc.member == exp, exp, acc.member if isinstance(acc, EnumV) else str(acc), fn_where(idx, fw))
+
+    # an explicit / alias register that the behaviour both reads and writes: the assignment runs add_write_property() while the
+    # tree is transformed, every read is rendered afterwards - a read must still yield the value from before the instruction
+    for name, kw in (("R31", {"is_explicit": True}), ("lr", {"is_alias": True})):
+        box = {}
+        def once2(i, name=name, kw=kw):
+            o = reg_obj(name, "UNKNOWN", idx, **kw)
+            box["o"] = o
+            i.call_function(fw, [], self_obj=o)
+            return i.call_function(fr, [], self_obj=o)
+        outs = Interp(idx).explore(once2)
+        obs = sorted({normalise(outcome_text(o)) for o in outs})
+        new_reads = [x for x in obs if "true" in x]
+        ctx.check(f"explicit/alias register {name} read and written in one behaviour: the read is of the old value", not new_reads, "READ_REG(..., false) or the variable initialised from it",
+                  f"{obs}: the register's access class is W once any assignment to it was seen, and W registers are read as .new", fn_where(idx, fr))
